@@ -15,6 +15,9 @@ env = dict(os.environ, GOFLAGS="-mod=mod", GOPROXY="off", GOSUMDB="off", GOTOOLC
 subprocess.run(["git", "-C", "/repo", "worktree", "remove", "--force", WT], stderr=subprocess.DEVNULL)
 subprocess.run(["git", "-C", "/repo", "worktree", "add", "-q", "--detach", WT, "HEAD"], check=True)
 try:
+    if edits and edits[0] == "--patch":   # python3 mutquick.py NAME --patch FILE.diff
+        subprocess.run(["git", "-C", WT, "apply", edits[1]], check=True)
+        edits = []
     for i in range(0, len(edits), 3):
         f, old, new = edits[i:i + 3]
         old, new = old.encode().decode("unicode_escape"), new.encode().decode("unicode_escape")
